@@ -242,13 +242,18 @@ def lens_vcs():
 
 # ---- P rung: the dynamic programme of _string_matching for SYMBOLIC shapes (R, H, N) -----------------------------------------------
 def dp_vcs(ctx=None):
-    """C01.P.dp: the real `_string_matching` (distance path) executed over tensors of symbolic shape (vf/pyvc/symtensor.py).
+    """C01.P.dp: the real `_string_matching`, entered through the public `edit_distance` / `prefix_edit_distances`, executed over
+    tensors of symbolic shape (vf/pyvc/symtensor.py).
     Spec D(n, r, j): weighted Levenshtein cost between ref[:r, n] and hyp[:j, n] (Wagner-Fischer recurrence = definition).
-    Loop invariant at the head of the iteration for hypothesis position k+1:  FORALL r <= R. row[r, n] = D(n, r, min(k, hyp_len[n])).
+    Loop invariant at the head of the iteration for hypothesis position k+1:  FORALL r <= R. row[r, n] = D(n, r, min(k, cap[n])),
+    cap = hyp_len (or hyp_len - 1 with exclude_last, where the last prefix is never computed); in prefix mode also
+    FORALL j <= k. prefix_ers[j, n] = D(n, ref_len[n], min(j, cap[n])).
     Because one vectorised row update hides an induction over the reference index r (the `del_mat` / min(1) trick), initialisation
     and preservation are each proved by an explicit induction over r (base and step obligations), for a skolem batch element n.
-    Assumed: callee contract of `_lens_from_eos` (proved separately: C01.P.lens_first_eos), the min(dim) contract, the lin_c
-    abstraction of index * cost products, the induction principle."""
+    Equal costs: the code runs the programme with unit costs and multiplies by the common cost c; the spec is then c * D_1 and the
+    lemma `uniform_cost_scaling_step` (c * D_1 satisfies the recurrence of D_c cell by cell, nonlinear real arithmetic) ties it to D_c.
+    Assumed: callee contract of `_lens_from_eos` (proved separately: C01.P.lens_first_eos), the min(dim) / any() contracts, the
+    lin_c abstraction of index * cost products, the induction principle."""
     from vf.pyvc import symtensor as stn
     from vf.pyvc.interp import LoopSpec, PathAbort
 
@@ -261,20 +266,39 @@ def dp_vcs(ctx=None):
     D = z3.Function("D", z3.IntSort(), z3.IntSort(), z3.IntSort(), z3.RealSort())
     n, r, j = z3.Ints("n r j")
     mn = lambda a, b: z3.If(a <= b, a, b)
-    neq = lambda rr, jj, nn: z3.If(REF(rr, nn) != HYP(jj, nn), SUB, z3.RealVal(0))
-    spec = [z3.ForAll([n], D(n, 0, 0) == 0),
-            z3.ForAll([n, r], z3.Implies(r >= 1, D(n, r, 0) == D(n, r - 1, 0) + DEL)),
-            z3.ForAll([n, j], z3.Implies(j >= 1, D(n, 0, j) == D(n, 0, j - 1) + INS)),
-            z3.ForAll([n, r, j], z3.Implies(z3.And(r >= 1, j >= 1), D(n, r, j) == mn(mn(D(n, r, j - 1) + INS, D(n, r - 1, j - 1) + neq(r - 1, j - 1, n)), D(n, r - 1, j) + DEL)))]
+    mx = lambda a, b: z3.If(a >= b, a, b)
+    one = z3.RealVal(1)
+
+    def spec_for(ci, cd, cs):
+        neq = lambda rr, jj, nn: z3.If(REF(rr, nn) != HYP(jj, nn), cs, z3.RealVal(0))
+        return [z3.ForAll([n], D(n, 0, 0) == 0),
+                z3.ForAll([n, r], z3.Implies(r >= 1, D(n, r, 0) == D(n, r - 1, 0) + cd)),
+                z3.ForAll([n, j], z3.Implies(j >= 1, D(n, 0, j) == D(n, 0, j - 1) + ci)),
+                z3.ForAll([n, r, j], z3.Implies(z3.And(r >= 1, j >= 1), D(n, r, j) == mn(mn(D(n, r, j - 1) + ci, D(n, r - 1, j - 1) + neq(r - 1, j - 1, n)), D(n, r - 1, j) + cd)))]
+
     out = []
-    for eos_set, include_eos, batch_first in ((True, False, False), (False, False, False), (True, True, False), (True, False, True)):
-        name = "_string_matching[symbolic R,H,N; eos=%s,include_eos=%s,batch_first=%s; distance; unequal costs]" % ("set" if eos_set else "unset", include_eos, batch_first)
+    J0 = z3.Int("j0")
+    PADR = z3.ToReal(PAD)
+    C = lambda **k: dict(dict(prefix=False, eos_set=True, include_eos=False, batch_first=False, norm=False, uniform=False, exclude_last=False), **k)
+    configs = [C(), C(eos_set=False), C(include_eos=True), C(batch_first=True), C(norm=True), C(uniform=True), C(uniform=True, norm=True, include_eos=True),
+               C(prefix=True), C(prefix=True, include_eos=True, batch_first=True), C(prefix=True, exclude_last=True), C(prefix=True, norm=True),
+               C(prefix=True, uniform=True, exclude_last=True, batch_first=True)]
+    if ctx is not None and ctx.quick:
+        configs = [c for i, c in enumerate(configs) if i in (0, 1, 2, 3, 5, 7, 8, 9, 10)]
+    for cfg in configs:
+        prefix, eos_set, include_eos, batch_first, norm, uniform, excl = (cfg[k] for k in ("prefix", "eos_set", "include_eos", "batch_first", "norm", "uniform", "exclude_last"))
+        name = "%s[symbolic R,H,N; eos=%s,include_eos=%s,batch_first=%s,norm=%s,exclude_last=%s; %s costs]" % (
+            "prefix_edit_distances" if prefix else "edit_distance", "set" if eos_set else "unset", include_eos, batch_first, norm, excl, "equal" if uniform else "unequal")
         # spec lengths: first-eos length (C01.P.lens_first_eos), +1 for the counted eos when there is one
         RLs = (lambda nn: z3.If(LR(nn) == R, R, LR(nn) + 1)) if include_eos else (lambda nn: LR(nn))
         HLs = (lambda nn: z3.If(LH(nn) == H, H, LH(nn) + 1)) if include_eos else (lambda nn: LH(nn))
+        CAP = mx(HL0 - 1, 0) if excl else HL0  # the last hypothesis prefix the loop computes for the skolem element
+        LAST = mx(H - 1, 0) if excl else H  # number of loop iterations
+        ROWS = H if excl else H + 1  # rows of the prefix result
+        MULT = INS if uniform else one
 
-        def thunk(I, eos_set=eos_set, include_eos=include_eos, batch_first=batch_first):
-            import pydrobert.torch._string as S
+        def thunk(I, eos_set=eos_set, include_eos=include_eos, batch_first=batch_first, prefix=prefix, norm=norm, excl=excl):
+            import pydrobert.torch.functional as F
 
             I.stubs.update(stn.stubs())
             if batch_first:
@@ -297,14 +321,21 @@ def dp_vcs(ctx=None):
             I.contracts["pydrobert.torch._string._lens_from_eos"] = lens_contract
             if not eos_set:
                 I.ex.assume(z3.ForAll([n], z3.And(LR(n) == R, LH(n) == H)))
-            return I.call(S._string_matching, [ref, hyp, EOS if eos_set else None, include_eos, batch_first, INS, DEL, SUB, False], {})
+            kw = dict(eos=EOS if eos_set else None, include_eos=include_eos, norm=norm, batch_first=batch_first, ins_cost=INS, del_cost=DEL, sub_cost=SUB, warn=False)
+            if prefix:  # through the public wrappers: their argument forwarding is part of what is verified
+                return I.call(F.prefix_edit_distances, [ref, hyp], dict(kw, padding=PAD, exclude_last=excl))
+            return I.call(F.edit_distance, [ref, hyp], kw)
 
-        def hyp_inv(I, f, k, HLs=HLs):  # FORALL r at the skolem batch element
+        def pe_inv(f, k, CAP=CAP):  # prefix mode: FORALL j <= k. prefix_ers[j, n0] = D(n0, ref_len, min(j, cap))
+            pe = f.locals["prefix_ers"]
+            return z3.ForAll([j], z3.Implies(z3.And(0 <= j, j <= k), ip.to_z3(pe.elem(j, N0)) == D(N0, RL0, mn(j, CAP))))
+
+        def hyp_inv(I, f, k, CAP=CAP):  # FORALL r at the skolem batch element
             row = f.locals["row"]
-            return z3.ForAll([r], z3.Implies(z3.And(0 <= r, r <= R), ip.to_z3(row.elem(r, N0)) == D(N0, r, mn(k, HL0))))
+            return z3.ForAll([r], z3.Implies(z3.And(0 <= r, r <= R), ip.to_z3(row.elem(r, N0)) == D(N0, r, mn(k, CAP))))
 
         class DPLoop(LoopSpec):
-            def run(self, I, s, f, HLs=HLs, RLs=RLs):
+            def run(self, I, s, f, prefix=prefix, CAP=CAP, LAST=LAST, ROWS=ROWS):
                 row0 = f.locals["row"]
                 at = lambda row, rr, jj: ip.to_z3(row.elem(rr, N0)) == D(N0, rr, jj)
                 # the lengths the loop works with are the spec lengths
@@ -314,36 +345,72 @@ def dp_vcs(ctx=None):
                 # initialisation, by induction over r
                 I.ex.oblige("dp.init.base", at(row0, z3.IntVal(0), z3.IntVal(0)))
                 I.ex.oblige("dp.init.step", z3.Implies(z3.And(1 <= R0, R0 <= R, at(row0, R0 - 1, z3.IntVal(0))), at(row0, R0, z3.IntVal(0))))
+                if prefix:
+                    # the conclusion of the induction just proved (base + step), then the first prefix row (when there is one)
+                    I.ex.assume(z3.ForAll([r], z3.Implies(z3.And(0 <= r, r <= R), at(row0, r, z3.IntVal(0)))))
+                    I.ex.oblige("dp.prefix.rows", ip.to_z3(f.locals["prefix_ers"].shape[0]) == ROWS)
+                    I.ex.oblige("dp.prefix.init", z3.Implies(ROWS >= 1, ip.to_z3(f.locals["prefix_ers"].elem(z3.IntVal(0), N0)) == D(N0, RL0, 0)))
+                    PE = stn._fresh("prefix_ers", z3.IntSort(), z3.IntSort(), z3.RealSort())
+                    f.locals["prefix_ers"] = stn.ST((ROWS, N), lambda a, b: PE(ip.to_z3(a), ip.to_z3(b)), "float")
                 ROW = stn._fresh("row", z3.IntSort(), z3.IntSort(), z3.RealSort())
                 f.locals["row"] = stn.ST((R + 1, N), lambda a, b: ROW(ip.to_z3(a), ip.to_z3(b)), "float")
                 if I.ex.choose(2) == 0:
                     k = I.ex.fresh("int", "iter")
-                    I.ex.assume(z3.And(0 <= k, k < H))
+                    I.ex.assume(z3.And(0 <= k, k < LAST))
                     I.ex.assume(hyp_inv(I, f, k))
+                    if prefix:
+                        I.ex.assume(pe_inv(f, k))
+                    it = I.eval(s.iter, f)  # the real range(...) of the loop: its bounds are checked against the iteration count used here
+                    I.ex.oblige("dp.loop.range", z3.And(ip.to_z3(it.lo) == 1, mx(ip.to_z3(it.hi) - 1, 0) == LAST, ip.to_z3(it.step) == 1))
                     I.assign(s.target, k + 1, f)
                     I.exec_block(s.body, f)
                     row1 = f.locals["row"]
-                    jn = mn(k + 1, HL0)
+                    jn = mn(k + 1, CAP)
                     # preservation, by induction over r
                     I.ex.oblige("dp.step.base", at(row1, z3.IntVal(0), jn))
                     I.ex.oblige("dp.step.ind", z3.Implies(z3.And(1 <= R0, R0 <= R, at(row1, R0 - 1, jn)), at(row1, R0, jn)))
+                    if prefix:
+                        I.ex.assume(z3.ForAll([r], z3.Implies(z3.And(0 <= r, r <= R), at(row1, r, jn))))  # conclusion of the induction over r
+                        I.ex.oblige("dp.prefix.step", z3.Implies(z3.And(0 <= J0, J0 <= k + 1), ip.to_z3(f.locals["prefix_ers"].elem(J0, N0)) == D(N0, RL0, mn(J0, CAP))))
                     raise PathAbort()
-                I.ex.assume(hyp_inv(I, f, H))
+                I.ex.assume(hyp_inv(I, f, LAST))
+                if prefix:
+                    I.ex.assume(pe_inv(f, LAST))
 
         loop = DPLoop("dp.loop", None, None, None, {})
 
-        def post(p, RLs=RLs, HLs=HLs):
+        def post(p, prefix=prefix, batch_first=batch_first, norm=norm, excl=excl, MULT=MULT, ROWS=ROWS):
             if not api.returns(p) or not hasattr(p.value, "elem"):
                 return False
-            return [("distance_is_D_at_the_lengths", ip.to_z3(p.value.elem(N0)) == D(N0, RL0, HL0))]
+            rl = z3.ToReal(RL0)
 
-        pre = [INS > 0, DEL > 0, SUB > 0, z3.Not(z3.And(INS == DEL, DEL == SUB)), R >= 0, H >= 0, N >= 1, 0 <= N0, N0 < N, 0 <= R0,
-               HL0 == HLs(N0), RL0 == RLs(N0)] + spec
-        out.append(VC("C01.P.dp", name, M, "_string_matching", thunk, pre=pre, posts=[("final", post)], loops={("_string_matching", 0): loop},
+            def value(jj):  # the property's value for the hypothesis prefix of length jj
+                d = MULT * D(N0, RL0, jj)
+                if not norm:
+                    return d
+                return z3.If(RL0 == 0, z3.If(jj > 0, one, z3.RealVal(0)), d / rl)
+
+            if prefix:
+                e = ip.to_z3(p.value.elem(N0, J0) if batch_first else p.value.elem(J0, N0))
+                shape_ok = z3.And(ip.to_z3(p.value.shape[1 if batch_first else 0]) == ROWS, ip.to_z3(p.value.shape[0 if batch_first else 1]) == N)
+                valid = (J0 < HL0) if excl else (J0 <= HL0)
+                return [("result_shape", shape_ok), ("prefix_distance_is_D_up_to_the_hyp_length", z3.Implies(z3.And(J0 < ROWS, valid), e == value(J0))),
+                        ("padding_beyond_the_hyp_length", z3.Implies(z3.And(J0 < ROWS, z3.Not(valid)), e == PADR))]
+            return [("distance_is_D_at_the_lengths", ip.to_z3(p.value.elem(N0)) == value(HL0))]
+
+        costs = [INS > 0, INS == DEL, DEL == SUB] if uniform else [INS > 0, DEL > 0, SUB > 0, z3.Not(z3.And(INS == DEL, DEL == SUB))]
+        pre = costs + [R >= 0, H >= 0, N >= 1, 0 <= N0, N0 < N, 0 <= R0, HL0 == HLs(N0), RL0 == RLs(N0), 0 <= J0, J0 <= H] + (spec_for(one, one, one) if uniform else spec_for(INS, DEL, SUB))
+        lemmas = []
+        if uniform:
+            # c * D_1 obeys the recurrence of D_c: one cell, for arbitrary neighbours a (left), b (diagonal), d (up) and mismatch e in {0,1}
+            a, b, d, c, e = z3.Reals("a_left b_diag d_up c_cost e_neq")
+            lemmas = [("uniform_cost_scaling_step", [c > 0, z3.Or(e == 0, e == 1)], mn(mn(c * a + c, c * b + c * e), c * d + c) == c * mn(mn(a + 1, b + e), d + 1))]
+        out.append(VC("C01.P.dp", name, M, "_string_matching", thunk, pre=pre, posts=[("final", post)], loops={("_string_matching", 0): loop}, lemmas=lemmas,
                       inputs={"R": R, "H": H, "N": N}, timeout_ms=20000,
                       assumptions=["Wagner-Fischer recurrence = minimum over edit scripts (taken as the definition of D)",
                                    "min(dim) contract: lower bound of the finite entries, attained at a finite entry; any() contract; tensors as index functions (vf/pyvc/symtensor.py)",
-                                   "index * cost products abstracted to lin_c(i) with lin_c(0) = 0, lin_c(i+1) = lin_c(i) + c", "float arithmetic treated as real arithmetic",
+                                   "index * cost products abstracted to lin_c(i) with lin_c(0) = 0, lin_c(i+1) = lin_c(i) + c", "float arithmetic treated as real arithmetic; x / 0 is an arbitrary value",
                                    "induction over the reference index and over the loop applied outside the solver; callee contract of _lens_from_eos (C01.P.lens_first_eos)",
-                                   "configurations: return_mistakes/return_mask/return_prf_dsts off, norm off, unequal costs; (eos, include_eos, batch_first) in 4 combinations (the remaining flags are covered by the S rung)"]))
+                                   "equal costs: spec stated as c * D_1 (unit-cost table); the cell-wise scaling lemma is proved, the induction that lifts it to the whole table is applied outside the solver",
+                                   "configurations: public edit_distance and prefix_edit_distances in 12 flag combinations of eos, include_eos, batch_first, norm, exclude_last, equal/unequal costs (9 in the quick tier); every combination per shape is the S rung's"]))
     return out
